@@ -48,6 +48,7 @@ def run(ctx):
     res.rule("C04-R5", "positions: CmpHeader and MessageHeader getters read the wire positions of the layout oracle (G4 results of C12)")
     res.not_decided += ["equality of every decoded field with the wire for every input; order beyond 'pushed in loop order'"]
     dec = m.decode
+    D.rule_segtype_subject(res, "C04-R4", m)
     # ---- R1 unsegmented path
     up = [p for p in m.body_paths() if D.classify(p) == "unsegmented"]
     if not up:
